@@ -514,6 +514,49 @@ func (c *c07ctx) ruleR5() {
 			}
 		})
 		if !dominated {
+			// the same thing said by paths: no way from the entry to the flush that does not
+			// pass the queue-empty arm of such a select (a drain loop left through a flag)
+			var arms []*ssa.BasicBlock
+			Instrs(drain, func(s ssa.Instruction) {
+				sel, isSel := s.(*ssa.Select)
+				if !isSel || sel.Blocking {
+					return
+				}
+				for _, st := range sel.States {
+					if st.Dir == types.RecvOnly && c.isQueueChan(st.Chan) {
+						if d := SelectArms(sel)[-1]; d != nil {
+							arms = append(arms, d)
+						}
+					}
+				}
+			})
+			inArm := func(x ssa.Instruction) bool {
+				for _, a := range arms {
+					if x.Block() == a {
+						return true
+					}
+				}
+				return false
+			}
+			if len(arms) > 0 && len(ReachAvoiding(drain, nil, inArm, func(x ssa.Instruction) bool { return x == in })) == 0 {
+				// and nothing is taken from the queue between that arm and the flush
+				clean := true
+				for _, a := range arms {
+					if len(a.Instrs) == 0 {
+						continue
+					}
+					again := ReachAvoiding(drain, a.Instrs[0], func(x ssa.Instruction) bool { return x == in }, func(x ssa.Instruction) bool {
+						_, isSel := x.(*ssa.Select)
+						return isSel
+					})
+					if len(again) > 0 {
+						clean = false
+					}
+				}
+				dominated = clean
+			}
+		}
+		if !dominated {
 			okb = false
 		}
 	})
